@@ -788,7 +788,15 @@ class Scope:
         for k, v in val.items():
           put(target[key], k, v)
       else:
-        target[key] = val
+        # The scope must own the dicts it may merge into later: never keep a
+        # reference to a caller-owned dict (e.g. an argument used as the initial
+        # value of a variable), or the next write would modify it in place.
+        target[key] = own(val)
+
+    def own(val):
+      if type(val) is dict:  # pylint: disable=unidiomatic-typecheck
+        return {k: own(v) for k, v in val.items()}
+      return val
 
     put(variables, name, value)
 
